@@ -6,15 +6,16 @@ from checks import c01, c07
 
 MANIFEST = {
     "text": "Coq theorems (Properties_C16.v, closed under the global context): with threshold 0 and no pivot reuse the pivot rule "
-            "chooses the original diagonal entry whenever it is nonzero, hence perm_r = perm_c; the allocator arithmetic of C05 "
-            "applies to the symmetric (Cholesky of A^T+A) prediction (PARTIAL: domination monitored). C01/C02 theorems hold for "
+            "chooses the original diagonal entry whenever it is nonzero, hence perm_r = perm_c; with diagonal pivots the fill "
+            "of the matrix stays inside the fill of A^T+A at every stage, for every pattern and size (monotone elimination step, induction), "
+            "hence every L column has at most the predicted number of entries; the allocator arithmetic of C05 applies to that prediction. C01/C02 theorems hold for "
             "any admissible pivots. Tie: real p?gssvx runs with SymmetricMode = YES, ordering on A^T+A, threshold 0 on diagonally "
             "dominant matrices (unsymmetric and symmetric patterns, full diagonal), s/d/c/z, 1..8 threads with seeded "
-            "perturbation: perm_r = perm_c, every LUSUP allocation inside its slot (hook), exact LU certificate gamma(n)|L||U| "
+            "perturbation: perm_r = perm_c, colcnt_h of cholnzcnt EQUAL to the extracted elimination model on A^T+A, the returned L structure EQUAL to the model's fill of the "
+            "matrix itself (relax = 1, one worker) and inside the prediction (relax = 1, any number of workers), every LUSUP allocation inside its slot (hook), exact LU certificate gamma(n)|L||U| "
             "and exact backward error of X.",
-    "note": "diag_dominance_preserved (the diagonal stays nonzero during elimination) and fill_in_symmetric_bound are not "
-            "proved: the first is a hypothesis of the property realised by the generator, the second is monitored by the slot "
-            "hook. Trusted: Coq kernel, extraction, hooks, python exact oracles.",
+    "note": "diag_dominance_preserved (the diagonal stays nonzero during elimination) is a hypothesis of the property realised by "
+            "the generator; cholnzcnt is tied by exact comparison, not modelled. Trusted: Coq kernel, extraction, hooks, python exact oracles.",
     "technique": "Coq proof (pivot rule at threshold 0, allocator arithmetic) + slot monitor + exact certificates on real symmetric-mode runs",
 }
 
@@ -47,9 +48,9 @@ def make_case(rng, cid, prec, quick):
     nrhs = 1
     rhs = [rnd(gen.val(rng)) for _ in range(n * nrhs * ncomp)]
     return dict(id=cid, prec=prec, driver="gssvx", stype="NC", m=n, n=n, colptr=A["colptr"], rowind=A["rowind"], vals=vals,
-                nrhs=nrhs, rhs=rhs, nprocs=rng.choice([1, 2, 4, 8]), colperm=2, symmetric=1, thresh=0.0, fact=0, trans=0,
-                ienv=[rng.choice([1, 2, 4, 8, 20]), rng.choice([1, 2, 4, 6]), rng.choice([8, 20, 200]), rng.choice([2, 200]),
-                      rng.choice([2, 100]), -50, -50, -30],
+                nrhs=nrhs, rhs=rhs, nprocs=rng.choice([1, 1, 2, 4, 8]), colperm=2, symmetric=1, thresh=0.0, fact=0, trans=0,
+                ienv=[rng.choice([1, 2, 4, 8, 20]), rng.choice([1, 1, 2, 4, 6]), rng.choice([8, 20, 200]), rng.choice([2, 200]),
+                      rng.choice([2, 100]), -50, -50, -30], trace=4,
                 perturb=[rng.randint(1, 10 ** 6), rng.choice([0.0, 0.2]), rng.choice([0, 100])], dumplu=1, timeout=120, kind=kind)
 
 
@@ -82,6 +83,44 @@ def oracle(c, r):
     return None
 
 
+def actual_L_counts(r, n):
+    """entries of every column of the returned L (diagonal included), from the supernodal structure"""
+    L = r["L"]; cs = L["col_to_sup"]; out = []
+    for j in range(n):
+        fs = L["sup_to_colbeg"][cs[j]]
+        out.append(L["rowind_colend"][fs] - L["rowind_colbeg"][fs] - (j - fs))
+    return out
+
+
+def fill_tie(sdrv, c, r):
+    """K-exact tie of SymFill: the extracted elimination model on the pattern of Pc A Pc^T must give (a) the column counts
+    cholnzcnt predicted (colcnt_h) from the fill of A^T + A and (b), without relaxation, the column counts of the L actually
+    returned; (c) the theorem's conclusion actual <= predicted is re-checked on the implementation's own numbers"""
+    n = c["n"]; pc = r["perm_c"]
+    ents = []
+    for j in range(n):
+        for p in range(c["colptr"][j], c["colptr"][j + 1]):
+            ents.append("%d %d" % (pc[c["rowind"][p]], pc[j]))
+    rc, out, err = vf.sh2([sdrv], inp="%d | %s\n" % (n, " ".join(ents)), timeout=120)
+    if rc != 0 or not out.startswith("S "):
+        return None, "symfill model driver failed: %s" % (err[-200:] or out[:100])
+    S = [int(x) for x in out.split("|")[0].split()[1:]]; Lm = [int(x) for x in out.split("|")[1].split()[1:]]
+    if S != r["colcnt_h"]:
+        k = next(k for k in range(n) if S[k] != r["colcnt_h"][k])
+        return "predicted column count of column %d: cholnzcnt %d, the elimination model on A^T+A gives %d" % (k, r["colcnt_h"][k], S[k]), None
+    act = actual_L_counts(r, n)
+    if c["ienv"][1] == 1:
+        # one worker: the symbolic factorization is exact.  Several workers: a pipelined panel cannot see the structure of its busy
+        # descendants and takes a superset (explicit zeros), which is legitimate as long as it stays inside the prediction (c)
+        if c["nprocs"] == 1 and act != Lm:
+            k = next(k for k in range(n) if act[k] != Lm[k])
+            return "L column %d has %d entries, elimination of the pattern with diagonal pivots gives %d" % (k, act[k], Lm[k]), None
+        if any(a > s_ for a, s_ in zip(act, S)):
+            k = next(k for k in range(n) if act[k] > S[k])
+            return "L column %d has %d entries, more than the symmetric prediction %d" % (k, act[k], S[k]), None
+    return None, None
+
+
 def run(ctx):
     rng = ctx.rng
     ctx.cov["rule"] = ("p?gssvx, SymmetricMode=YES, MMD(A^T+A), threshold 0, diagonally dominant matrices (unsymmetric random pattern, "
@@ -89,7 +128,8 @@ def run(ctx):
                        "seeded perturbation; non-trivial = n>=3; distinct by matrix+parameters")
     ctx.coq_properties()
     N = {"d": 60, "s": 16, "z": 16, "c": 12} if ctx.quick() else {"d": 800, "s": 200, "z": 200, "c": 200}
-    nok = 0
+    sdrv = ctx.ocaml_model("symfill")
+    nok = 0; ntie = 0; ntie1 = 0
     for prec in "dszc":
         cases = [make_case(rng, k + 1, prec, ctx.quick()) for k in range(N[prec])]
         exe = drv.build(ctx, prec, "hooks")
@@ -98,6 +138,12 @@ def run(ctx):
             ctx.count((prec, c["kind"], c["n"], tuple(c["rowind"][:40]), tuple(c["vals"][:6]), c["nprocs"]), nontrivial=c["n"] >= 3,
                       kind="%s-%s" % (prec, c["kind"]))
             bad = oracle(c, r)
+            if bad is None and r.get("info") == 0 and "colcnt_h" in r and "L" in r:
+                bad, brk = fill_tie(sdrv, c, r)
+                if brk:
+                    ctx.broken.append(brk)
+                elif bad is None:
+                    ntie += 1; ntie1 += 1 if (c["ienv"][1] == 1 and c["nprocs"] == 1) else 0
             if bad is None:
                 nok += 1
             else:
@@ -110,8 +156,12 @@ def run(ctx):
                               {"case": c, "result": {k: v for k, v in r.items() if k not in ("L", "U", "events")}}, key=key)
         ctx.sample({k: cases[0][k] for k in ("prec", "kind", "n", "nprocs", "ienv")}, limit=8)
     ctx.cov["correspondence"]["symmetric_runs_ok"] = nok
+    ctx.cov["correspondence"]["colcnt_h_equal_to_elimination_model_of_AT_plus_A"] = ntie
+    ctx.cov["correspondence"]["L_structure_equal_to_elimination_model_one_worker_no_relaxation"] = ntie1
     ctx.log("symmetric-mode runs ok: %d" % nok)
-    ctx.cov["partial"] += ["diag_dominance_preserved and fill_in_symmetric_bound not proved (generator hypothesis / slot monitor)"]
+    ctx.cov["partial"] += ["diag_dominance_preserved (the diagonal stays nonzero for diagonally dominant matrices) is a hypothesis realised by the generator",
+                           "cholnzcnt itself is not modelled: its output is compared exactly with the elimination model per run; relaxed supernodes "
+                           "(relax > 1) add explicit zeros to L: the exact L-structure comparison runs on the relax = 1 cases, the slot monitor on all"]
 
 
 def replay(ctx, obj):
